@@ -402,6 +402,39 @@ func c15Replace(c *core.Ctx, src []byte, ver string, r *core.Rand) {
 			fmt.Sprintf("replacing %s.%s (%s, source %q) by a token-less identifier %q: the word is fused with a neighbour or the output outside it changed: %s", obs.Kind(s.parent), s.field, obs.Kind(s.node), join(before.Chunks[lo:hi]), word, obs.FirstDiff(pre+" "+word+" "+post, after2)), w)
 		return
 	}
+	// third edit: the subtree is wrapped into a token-less node (print E): the default lexeme is inserted
+	// between two source tokens that may have touched in the source, and must not fuse with either
+	if k := obs.Kind(s.node); strings.HasPrefix(k, "Expr") || strings.HasPrefix(k, "Scalar") {
+		sub := join(before.Chunks[lo:hi])
+		setSlot(s, &ast.ExprPrint{Expr: s.node})
+		after3, p3 := printString(pr.Root)
+		setSlot(s, s.node)
+		if p3 != nil {
+			c.Violation(p3.Sig, "printer panicked after wrapping a subtree: "+p3.Msg, w)
+			return
+		}
+		ok3 := false
+		for _, a := range []string{pre, strings.TrimSuffix(pre, " "), pre + " "} {
+			for _, x := range []string{"", " "} {
+				for _, b := range []string{post, strings.TrimPrefix(post, " "), " " + post} {
+					if after3 != a+"print"+x+sub+b {
+						continue
+					}
+					fusedLeft := len(a) > 0 && identCh(a[len(a)-1])
+					fusedRight := x == "" && len(sub) > 0 && identCh(sub[0])
+					if !fusedLeft && !fusedRight {
+						ok3 = true
+					}
+				}
+			}
+		}
+		c.Add("token_less_wrapper_insertions", 1)
+		if !ok3 {
+			c.Violation("print|wrap-print|"+obs.Kind(s.parent)+"."+s.field+"|lexeme-fused-or-surroundings-changed",
+				fmt.Sprintf("wrapping %s.%s (%s, source %q) into a token-less print node: its default lexeme is fused with a neighbour or other output changed: %s", obs.Kind(s.parent), s.field, obs.Kind(s.node), sub, obs.FirstDiff(pre+"print "+sub+post, after3)), w)
+			return
+		}
+	}
 	c.NonTrivial(src, []byte(ver), []byte(fmt.Sprint(lo, hi)))
 	if c.WantSample() && len(src) < 200 {
 		c.Sample(map[string]interface{}{"source": string(src), "replaced": obs.Kind(s.parent) + "." + s.field, "output_after": after})
